@@ -145,6 +145,20 @@ SUMMARY = {
     "C16-G": ("_ClientData.pop_datagram(): lock-free fast path, slow path with acquire()/release() and no finally", "a handler timeout expiring on an empty queue, generator keeps going, the same client sends again"),
     "C18-G": ("server_activate(): 'already bound → return' tested before 'closed → ServerClosedError'", "serve_forever() entering while server_close() is still closing the listeners"),
     "C18-H": ("listener raw_accept(): accept-scope reset after the with block instead of in a finally", "EMFILE on accept, shutdown() during the retry pause, then a restart (EBUSY)"),
+    # ---- round 5 (G, H; the other ten properties), same brief as round 4
+    "C02-G": ("_buffered_readuntil: resume offset after a failed scan = buflen - 1 instead of buflen + 1 - seplen", "buffered path, separator ≥ 3 bytes, a read boundary after ≥ 2 bytes of a terminator"),
+    "C02-H": ("raw JSON raw_parse: enclosure_counter <= 0 → == 0 (same edit as C06-D)", "one closing bracket too many between documents"),
+    "C07-G": ("_buffered_readuntil: 'not found / limit exceeded' check moved above the 'separator found' return", "one read filling the limit-sized buffer with small complete frames"),
+    "C07-H": ("GeneratorStreamReader.read_until: chunks lacking the separator's last byte appended without rescanning (skips the limit check)", "a never-terminated frame arriving in ≥ 2 reads with no newline in the later ones"),
+    "C11-G": ("_retry: next wait length computed once, refreshed only after an idle wake-up", "spurious readiness followed by a stall (TLS record drip-fed, slow reader on the send side)"),
+    "C13-G": ("CancelScope.__uncancel_task: 'not our message → not ours' before the take-back loop (recognition by message only)", "the scope's cancellation comes back as a fresh CancelledError instance (Condition.wait in 3.12, user code re-raising a new one)"),
+    "C13-H": ("CancelScope.__deliver_cancellation stops re-scheduling once task.cancel() was issued (edge-triggered)", "the CancelledError is consumed inside the body (except BaseException / ExceptionGroup replaces it) and the body carries on"),
+    "C17-G": ("asyncio adapter aclose(): except OSError around write_eof() → except ConnectionError", "request and RST back to back, handler raises: shutdown() fails with ENOTCONN (plain OSError) in the per-client teardown"),
+    "C17-H": ("server connection task ends with transport.aclose() instead of aclose_forcefully (as C14-F)", "handler fails because the peer does not read: unsent bytes, the graceful close waits for ever"),
+    "C19-G": ("staggered race: cancel scope entered inside the task group (the winner's cancel only stops the scheduling loop)", "an attempt still pending when a later one wins"),
+    "C19-H": ("staggered race: 'someone already won' check before the awaited connect, re-check after it dropped", "two attempts succeeding in the same loop iteration"),
+    "C20-G": ("WriteFlowControl.drain() re-checks connection_lost after the wake-up", "sender suspended, another task closes gracefully, the peer reads again: the send fails although every byte was handed over"),
+    "C20-H": ("drain(): lost-connection check nested under 'not paused'; connection_lost() no longer resets the paused flag", "connection lost while writing is paused, then any later send"),
 }
 
 
@@ -153,6 +167,7 @@ EXPECTED_SURVIVE = {
     "C04-C": "same edit as C12-C: unreachable with the real ssl module (needs SSLObject.write() to raise WantRead/WantWrite mid-packet).",
     "C04-D": "needs a would-block condition that is resolved without the descriptor ever becoming ready (a TLS client shared by two threads where the receiver consumes the record the sender waits for, or data buffered inside OpenSSL). The simulated selector reports readiness truthfully and the blocking TLS harnesses are single-threaded, so an un-timed select() still returns. Not modelled; stated limitation.",
     "C06-D": "a stray closing bracket is raw-JSON garbage without frame structure: C02 demands nothing there (by design of the statement), and every C06 clause still holds under the change (only parse errors escape, every reported error consumes bytes, nothing hangs, the C07 bound holds: the garbage is reported as a LimitOverrunError once the limit is reached). Outside the listed statements.",
+    "C02-H": "same edit as C06-D: a stray closing bracket is raw-JSON garbage without frame structure; the frame-level clauses of C02 (one bad FRAME = one error, later frames still parse) are stated for streams of frames and demand nothing for bytes between documents; every C06/C07 clause still holds under the change.",
     "C15-C": "only removes a TimeoutError that should fire; the property states the other direction only ('TimeoutError only if no complete request arrived in time'), so a check that demanded it would go beyond the statement.",
 }
 
